@@ -536,7 +536,8 @@ def validate_traces(ctx, module, cfg, path, parts=None, env=None, max_reject=12,
     one).  Returns (n_traces, n_events, rejections) where a rejection is
     {"events": [...the whole trace...], "at": index of the first unmatched event in it}."""
     t0 = time.time()
-    lines = Path(path).read_bytes().splitlines(keepends=True)
+    lines = Path(path).read_bytes().split(b"\n")
+    lines = [ln + b"\n" for ln in lines if ln]
     if not lines:
         raise ToolError(f"no events recorded in {path}")
     starts = [i for i, ln in enumerate(lines) if ln.startswith(b'{"ev":"reset"')]
